@@ -23,8 +23,10 @@ struct State
   volatile bool stepping = false;
   volatile int count = 0;
   volatile int fire_at = -1;
+  volatile int fire_at2 = -1; // optional second adversary action (same function, own argument) before a later access
   void (*action)(void*) = nullptr;
   void* arg = nullptr;
+  void* arg2 = nullptr;
   volatile bool fired = false;
   void (*foreign_fault)(int) = nullptr; // called for faults outside the trapped region (then the default action)
   Access log[8192];
@@ -53,6 +55,7 @@ inline void on_segv(int sig, siginfo_t* si, void* ucv)
     st.action(st.arg); // adversary writes sandbox memory right before this access
     st.fired = true;
   }
+  if (k == st.fire_at2 && st.action) st.action(st.arg2);
   uc->uc_mcontext.gregs[REG_EFL] |= 0x100; // trap flag: single-step the faulting instruction
   st.stepping = true;
 }
@@ -82,11 +85,21 @@ inline void arm(int fire_at, void (*action)(void*), void* arg)
 {
   st.count = 0;
   st.fire_at = fire_at;
+  st.fire_at2 = -1;
   st.action = action;
   st.arg = arg;
   st.fired = false;
   st.armed = true;
   mprotect(reinterpret_cast<void*>(st.base), st.size, PROT_NONE);
+}
+// arm with two actions: arg before access k1, arg2 before access k2 (k1 < k2)
+inline void arm2(int k1, int k2, void (*action)(void*), void* arg, void* arg2)
+{
+  arm(k1, action, arg);
+  st.armed = false;
+  st.fire_at2 = k2;
+  st.arg2 = arg2;
+  st.armed = true;
 }
 inline int disarm()
 {
